@@ -99,57 +99,57 @@ package stats
 //@ func URLsCrawledIncr
 //@   property C17
 //@   mode bv
-//@   requires globalStats != nil && globalStats.URLsCrawled != nil
+//@   requires @C17 globalStats != nil && globalStats.URLsCrawled != nil
 //@   ensures [effect] adds(globalStats.URLsCrawled.total) == old(adds(globalStats.URLsCrawled.total)) + 1 && stores(globalStats.URLsCrawled.total) == old(stores(globalStats.URLsCrawled.total)) // C17: URLs crawled
 //@ func SeedsFinishedIncr
 //@   property C17
 //@   mode bv
-//@   requires globalStats != nil && globalStats.SeedsFinished != nil
+//@   requires @C17 globalStats != nil && globalStats.SeedsFinished != nil
 //@   ensures [effect] adds(globalStats.SeedsFinished.total) == old(adds(globalStats.SeedsFinished.total)) + 1 && stores(globalStats.SeedsFinished.total) == old(stores(globalStats.SeedsFinished.total)) // C17: seeds finished
 //@ func HTTPReturnCodesIncr
 //@   property C17
 //@   mode bv
-//@   requires globalStats != nil && globalStats.HTTPReturnCodes != nil
+//@   requires @C17 globalStats != nil && globalStats.HTTPReturnCodes != nil
 //@   ensures [effect] has(globalStats.HTTPReturnCodes.data, key) && forall(p, *rate, p == globalStats.HTTPReturnCodes.data[key] ==> adds(p.total) == old(adds(p.total)) + 1 && stores(p.total) == old(stores(p.total))) // C17: per-status-code counts
 //@   ensures [others] forall(k, string, k != key ==> has(globalStats.HTTPReturnCodes.data, k) == old(has(globalStats.HTTPReturnCodes.data, k)) && globalStats.HTTPReturnCodes.data[k] == old(globalStats.HTTPReturnCodes.data[k]))
 //@ func PreprocessorRoutinesIncr
 //@   property C17
 //@   mode bv
-//@   requires globalStats != nil && globalStats.PreprocessorRoutines != nil
+//@   requires @C17 globalStats != nil && globalStats.PreprocessorRoutines != nil
 //@   modifies atomic(globalStats.PreprocessorRoutines.count)
 //@   ensures [effect] adds(globalStats.PreprocessorRoutines.count) == old(adds(globalStats.PreprocessorRoutines.count)) + 1 && stores(globalStats.PreprocessorRoutines.count) == old(stores(globalStats.PreprocessorRoutines.count))
 //@ func PreprocessorRoutinesDecr
 //@   property C17
 //@   mode bv
-//@   requires globalStats != nil && globalStats.PreprocessorRoutines != nil
+//@   requires @C17 globalStats != nil && globalStats.PreprocessorRoutines != nil
 //@   modifies atomic(globalStats.PreprocessorRoutines.count)
 //@   ensures [effect] adds(globalStats.PreprocessorRoutines.count) == old(adds(globalStats.PreprocessorRoutines.count)) - 1 && stores(globalStats.PreprocessorRoutines.count) == old(stores(globalStats.PreprocessorRoutines.count))
 //@ func ArchiverRoutinesIncr
 //@   property C17
 //@   mode bv
-//@   requires globalStats != nil && globalStats.ArchiverRoutines != nil
+//@   requires @C17 globalStats != nil && globalStats.ArchiverRoutines != nil
 //@   modifies atomic(globalStats.ArchiverRoutines.count)
 //@   ensures [effect] adds(globalStats.ArchiverRoutines.count) == old(adds(globalStats.ArchiverRoutines.count)) + 1 && stores(globalStats.ArchiverRoutines.count) == old(stores(globalStats.ArchiverRoutines.count))
 //@ func ArchiverRoutinesDecr
 //@   property C17
 //@   mode bv
-//@   requires globalStats != nil && globalStats.ArchiverRoutines != nil
+//@   requires @C17 globalStats != nil && globalStats.ArchiverRoutines != nil
 //@   modifies atomic(globalStats.ArchiverRoutines.count)
 //@   ensures [effect] adds(globalStats.ArchiverRoutines.count) == old(adds(globalStats.ArchiverRoutines.count)) - 1 && stores(globalStats.ArchiverRoutines.count) == old(stores(globalStats.ArchiverRoutines.count))
 //@ func PostprocessorRoutinesIncr
 //@   property C17
 //@   mode bv
-//@   requires globalStats != nil && globalStats.PostprocessorRoutines != nil
+//@   requires @C17 globalStats != nil && globalStats.PostprocessorRoutines != nil
 //@   modifies atomic(globalStats.PostprocessorRoutines.count)
 //@   ensures [effect] adds(globalStats.PostprocessorRoutines.count) == old(adds(globalStats.PostprocessorRoutines.count)) + 1 && stores(globalStats.PostprocessorRoutines.count) == old(stores(globalStats.PostprocessorRoutines.count))
 //@ func PostprocessorRoutinesDecr
 //@   property C17
 //@   mode bv
-//@   requires globalStats != nil && globalStats.PostprocessorRoutines != nil
+//@   requires @C17 globalStats != nil && globalStats.PostprocessorRoutines != nil
 //@   modifies atomic(globalStats.PostprocessorRoutines.count)
 //@   ensures [effect] adds(globalStats.PostprocessorRoutines.count) == old(adds(globalStats.PostprocessorRoutines.count)) - 1 && stores(globalStats.PostprocessorRoutines.count) == old(stores(globalStats.PostprocessorRoutines.count))
 //@ func MeanHTTPRespTimeAdd
 //@   property C17
 //@   mode bv
-//@   requires globalStats != nil && globalStats.MeanHTTPResponseTime != nil
+//@   requires @C17 globalStats != nil && globalStats.MeanHTTPResponseTime != nil
 //@   ensures [effect] adds(globalStats.MeanHTTPResponseTime.count) == old(adds(globalStats.MeanHTTPResponseTime.count)) + 1 && stores(globalStats.MeanHTTPResponseTime.count) == old(stores(globalStats.MeanHTTPResponseTime.count)) && stores(globalStats.MeanHTTPResponseTime.sum) == old(stores(globalStats.MeanHTTPResponseTime.sum))
